@@ -54,6 +54,23 @@ pub fn emit_eq(out: &mut Out, c1: u64, r1: u64, c2: u64, r2: u64, diff: u64) {
     out.end(&obs);
 }
 
+/// sub 3: equality over an element type whose equality is not reflexive (f64 with a NaN in
+/// cell `nan - 1`; 0 = no NaN): the same object, `!=`, a clone, a rebuilt copy
+pub fn emit_eq_float(out: &mut Out, c: u64, r: u64, nan: u64) {
+    let inp = vec![DBG as u64, 3, c, r, nan];
+    if out.want_sample() { out.sample(&format!("C20 f64 {}x{} == itself, NaN at {}", c, r, nan)); }
+    out.begin(20, 9, &inp);
+    let mut d: Vec<f64> = (0..c * r).map(|i| i as f64).collect();
+    if nan > 0 && nan <= c * r { d[(nan - 1) as usize] = f64::NAN; }
+    let a: TooDee<f64> = TooDee::from_vec(c as usize, r as usize, d.clone());
+    let b: TooDee<f64> = TooDee::from_vec(c as usize, r as usize, d);
+    let same = { let x = &a; let y = &a; x == y };
+    let ne = { let x = &a; let y = &a; x != y };
+    let cl = a.clone();
+    let obs = vec![same as u64, ne as u64, (a == cl) as u64, (a == b) as u64];
+    out.end(&obs);
+}
+
 /// sub 2: a constructor with the given arguments, then every conversion out of the array.
 /// via: 0 from_vec, 1 from_box, 2 new, 3 init (value 7)
 pub fn emit_ctor<T: Elem>(out: &mut Out, via: u64, c: u64, r: u64, len: u64) {
@@ -96,6 +113,7 @@ pub fn replay(out: &mut Out, inp: &[u64]) {
     match inp[1] {
         0 => emit_from_view(out, inp[2], inp[3], (inp[4], inp[5], inp[6], inp[7]), inp[8] != 0),
         1 => emit_eq(out, inp[2], inp[3], inp[4], inp[5], inp[6]),
+        3 => emit_eq_float(out, inp[2], inp[3], inp[4]),
         _ => if inp[6] != 0 { emit_ctor::<Tracked>(out, inp[2], inp[3], inp[4], inp[5]) } else { emit_ctor::<u32>(out, inp[2], inp[3], inp[4], inp[5]) },
     }
 }
@@ -105,6 +123,8 @@ const BIG: [u64; 4] = [u64::MAX, u64::MAX / 2 + 1, 1 << 32, 1 << 63];
 pub fn gen_c20(out: &mut Out, tier: &str, rng: &mut Rng) {
     let small = if tier == "quick" { 4 } else { 6 };
     let dims: Vec<u64> = (0..=small).chain(BIG).collect();
+    // equality where the element's own equality is not reflexive
+    for c in 0..=small { for r in 0..=small { if (c == 0) == (r == 0) { for nan in 0..=c * r + 1 { emit_eq_float(out, c, r, nan); } } } }
     // constructors: every dimension pair x buffer lengths around the product
     for &c in &dims { for &r in &dims {
         let p = (c as u128) * (r as u128);
